@@ -153,7 +153,8 @@ def deductive(rep: Report, tier):
     stubs = {U + "quat_frobenius_norm": tag("fro"), U + "induced_matrix_norm_1": tag("one"), U + "induced_matrix_norm_inf": tag("inf"),
              U + "spectral_norm_2": tag("two")}
     table = [(None, "fro"), ("fro", "fro"), ("F", "fro"), (1, "one"), (2, "two"), (math.inf, "inf"), ("inf", "inf"),
-             ("nuc", None), (3, None), (-1, None), ("Fro", None), (-math.inf, None), ("1", None), (0, None)]
+             ("nuc", None), (3, None), (-1, None), ("Fro", None), (-math.inf, None), ("1", None), (0, None),
+             (Fraction(3, 2), None), (Fraction(5, 2), None), (Fraction(1, 2), None)]
     for ordv, want in table:
         def setup_d(I, ctx, ordv=ordv):
             m, n = dims(ctx, "m", "n")
@@ -303,7 +304,7 @@ def replay_dispatch(seed):
     u = rt.real().utils
     A4 = np.random.default_rng(seed).standard_normal((2, 3, 4))
     Q = rt.q_from4(A4)
-    for bad in ("nuc", 3, -1, "Fro", -np.inf, "1", 0):
+    for bad in ("nuc", 3, -1, "Fro", -np.inf, "1", 0, 1.5, 2.5, 0.5, np.float32(1.9)):
         try:
             v = u.matrix_norm(Q, bad)
             return {"failed": True, "what": f"matrix_norm accepted ord={bad!r} and returned {v}"}
